@@ -4741,11 +4741,11 @@ func (stmt *SelectStmt) genScanSpecs(tx *SQLTx, params map[string]interface{}) (
 	}
 
 	var descOrder bool
-	if len(groupByCols) > 0 && sortingIndex.coversOrdCols(groupByCols, rangesByColID) {
+	if len(groupByCols) > 0 && ordExpsOnTable(groupByCols, tableRef.Alias()) && sortingIndex.coversOrdCols(groupByCols, rangesByColID) {
 		groupByCols = nil
 	}
 
-	if len(groupByCols) == 0 && len(orderByCols) > 0 && sortingIndex.coversOrdCols(orderByCols, rangesByColID) {
+	if len(groupByCols) == 0 && len(orderByCols) > 0 && ordExpsOnTable(orderByCols, tableRef.Alias()) && sortingIndex.coversOrdCols(orderByCols, rangesByColID) {
 		descOrder = orderByCols[0].descOrder
 		orderByCols = nil
 	}
@@ -4776,13 +4776,29 @@ func (stmt *SelectStmt) genScanSpecs(tx *SQLTx, params map[string]interface{}) (
 	}, nil
 }
 
+// ordExpsOnTable reports whether every ORDER BY / GROUP BY selector belongs to the
+// scanned table: Index.hasPrefix matches column NAMES only, so `ORDER BY b.id` in
+// `a JOIN b` would otherwise be taken for a's column id and the sort dropped.
+func ordExpsOnTable(exps []*OrdExp, tableAlias string) bool {
+	for _, e := range exps {
+		sel := e.AsSelector()
+		if sel == nil {
+			continue
+		}
+		if _, t, _ := sel.resolve(tableAlias); t != tableAlias {
+			return false
+		}
+	}
+	return true
+}
+
 func (stmt *SelectStmt) selectSortingIndex(groupByCols, orderByCols []*OrdExp, table *Table, rangesByColId map[uint32]*typedValueRange) *Index {
 	sortCols := groupByCols
 	if len(sortCols) == 0 {
 		sortCols = orderByCols
 	}
 
-	if len(sortCols) == 0 {
+	if len(sortCols) == 0 || !ordExpsOnTable(sortCols, stmt.ds.Alias()) {
 		return nil
 	}
 
